@@ -126,3 +126,8 @@ pub fn hex_short(b: &[u8]) -> String {
         format!("{}..({} bytes)", hex::encode(&b[..24]), b.len())
     }
 }
+
+/// directory holding known_findings.json, replays/, .work/ and target/ (set by the dispatcher; /verif by default)
+pub fn root() -> String {
+    std::env::var("VERIF_ROOT").unwrap_or_else(|_| "/verif".to_string())
+}
